@@ -7,21 +7,23 @@ from props.c20 import HEADER
 
 
 # ---- independent NumPy evaluations of the documented objectives (used for gradients / replays)
-def nca_doc(L, X, y):
+def kernel_doc(L, X):
+  """e_ij / sum_k e_ik with e_ij = exp(-|L x_i - L x_j|^2), j != i: the ratio does not change when every e_ik of a
+  row is divided by the row's largest one, which keeps the evaluation finite at every scale of L"""
   Z = X.dot(L.T)
   D = np.sum((Z[:, None, :] - Z[None, :, :]) ** 2, axis=2)
-  E = np.exp(-D)
-  np.fill_diagonal(E, 0.0)
-  P = E / E.sum(axis=1, keepdims=True)
+  np.fill_diagonal(D, np.inf)
+  E = np.exp(-(D - D.min(axis=1, keepdims=True)))
+  return E / E.sum(axis=1, keepdims=True)
+
+
+def nca_doc(L, X, y):
+  P = kernel_doc(L, X)
   return float(np.sum(P * (y[:, None] == y[None, :])))
 
 
 def mlkr_doc(L, X, y):
-  Z = X.dot(L.T)
-  D = np.sum((Z[:, None, :] - Z[None, :, :]) ** 2, axis=2)
-  E = np.exp(-D)
-  np.fill_diagonal(E, 0.0)
-  yhat = E.dot(y) / E.sum(axis=1)
+  yhat = kernel_doc(L, X).dot(y)
   return float(np.sum((yhat - y) ** 2))
 
 
@@ -74,7 +76,7 @@ def run(ctx):
                  "gradients are certified per instance by finite differences, not by a theorem"]
   ok = ctx.build_property()
   terms, recs = [], []
-  n = 60 if thorough else 14
+  n = 90 if thorough else 24
   for i in range(n):
     kind = ['nca', 'mlkr', 'lmnn'][i % 3]
     d = int(rng.integers(2, 5))
@@ -85,20 +87,25 @@ def run(ctx):
     y = data['y']
     k = int(rng.integers(1, d + 1))
     L = fits.grid(rng.standard_normal((k, d)) * 0.7, 8)
+    # transformations of larger scale (raw-unit data, late optimiser iterates): embedded squared distances of several
+    # hundreds, where exp(-d) underflows unless the softmax is evaluated relative to the nearest neighbour
+    cscale = float([1, 1, 4, 16, 48][int(rng.integers(0, 5))]) if kind != 'lmnn' else 1.0
+    L = L * cscale
+    ctx.hist('scale_of_L', cscale)
     if kind == 'nca':
       est = NCA()
       est.n_iter_ = 1
       mask = y[:, None] == y[None, :]
       loss, grad = est._loss_grad_lbfgs(L.ravel(), X, mask, 1.0)
-      terms.append("(c10_nca %s %s %s %s)" % (gmat(L), gmat(X), gzlist(y), fhex(loss)))
-      recs.append(dict(kind=kind, L=L, X=X, y=y, loss=float(loss), grad=np.array(grad).reshape(L.shape)))
+      terms.append("(c10_nca %s %s %s %s)" % (gmat(L), gmat(X), gzlist(y), fhex(loss)) if cscale == 1 else "true")
+      recs.append(dict(kind=kind, L=L, X=X, y=y, loss=float(loss), grad=np.array(grad).reshape(L.shape), cscale=cscale))
     elif kind == 'mlkr':
       est = MLKR()
       est.n_iter_ = 1
       yr = fits.grid(data['yreg'], 6)
       loss, grad = est._loss(L.ravel(), X, yr)
-      terms.append("(c10_mlkr %s %s %s %s)" % (gmat(L), gmat(X), gvec(yr), fhex(loss)))
-      recs.append(dict(kind=kind, L=L, X=X, y=yr, loss=float(loss), grad=np.array(grad).reshape(L.shape)))
+      terms.append("(c10_mlkr %s %s %s %s)" % (gmat(L), gmat(X), gvec(yr), fhex(loss)) if cscale == 1 else "true")
+      recs.append(dict(kind=kind, L=L, X=X, y=yr, loss=float(loss), grad=np.array(grad).reshape(L.shape), cscale=cscale))
     else:
       kk = int(rng.integers(1, min(sizes)))
       reg = float(rng.choice([0.25, 0.5, 0.75]))
@@ -131,6 +138,8 @@ def run(ctx):
     else:
       f = lambda A: lmnn_doc(A, X, y, rec['T'], rec['reg'])
     v = f(L)
+    if not (np.isfinite(rec['loss']) and np.isfinite(rec['grad']).all()):
+      return 'value or gradient handed to the optimiser is not finite (documented objective: %r)' % v
     if abs(v - rec['loss']) > 1e-8 * (1 + abs(v)):
       return 'loss value differs from the documented objective (%r vs %r)' % (rec['loss'], v)
     if rec['kind'] == 'lmnn':
@@ -140,8 +149,9 @@ def run(ctx):
       m = min(abs(1 + D[i, j] - D[i, l]) for i in range(len(X)) for j in rec['T'][i] for l in range(len(X)) if y[l] != y[i])
       if m < 1e-4:
         return None
-    G = num_grad(f, L)
-    if np.abs(G - rec['grad']).max() > 1e-4 * (1 + np.abs(G).max()):
+    big = rec.get('cscale', 1.0) > 1
+    G = num_grad(f, L, h=1e-6 if not big else 1e-5)
+    if np.abs(G - rec['grad']).max() > (1e-4 if not big else 1e-3) * (1 + np.abs(G).max()):
       return 'gradient is not the derivative of the documented objective'
     return None
 
@@ -168,8 +178,8 @@ def run(ctx):
       ctx.fail_input('objective', rec['kind'] + ': ' + why, dict(kind=rec['kind'], L=rec['L'].tolist(), X=rec['X'].tolist(), y=np.asarray(rec['y']).tolist()))
   # ---- fits: never worse than the initial transformation
   import scipy.optimize
-  for i in range(24 if thorough else 8):
-    kind = ['nca', 'mlkr', 'lmnn'][i % 3]
+  for i in range(36 if thorough else 12):
+    kind = ['nca', 'mlkr', 'lmnn', 'lmnn'][i % 4]
     data = fits.make_data(rng, d=int(rng.integers(2, 5)))
     X, y, d = data['X'] * 0.5, data['y'], data['d']
     init = ['auto', 'pca', 'identity', 'random', 'array', 'lda'][i % 6]
@@ -221,7 +231,13 @@ def run(ctx):
         LMNN._loss_grad = spy
         with warnings.catch_warnings():
           warnings.simplefilter('ignore')
-          e = LMNN(max_iter=30, n_neighbors=2, learn_rate=1e-5, **kw).fit(X, y)
+          lr = float([1e-7, 1e-3, 1.0, 100.0, 1e4][int(rng.integers(0, 5))])
+          mi = int([3, 4, 8, 30][int(rng.integers(0, 4))])      # the descent loop runs for max_iter >= 3
+          units = float([1.0, 1.0, 10.0, 100.0][int(rng.integers(0, 4))])
+          X = X * units
+          ctx.hist('lmnn.learn_rate', lr)
+          ctx.hist('lmnn.units', units)
+          e = LMNN(max_iter=mi, n_neighbors=2, learn_rate=lr, **kw).fit(X, y)
       except Exception as ex:
         ctx.fail_input('fit_runs', 'lmnn(init=%s) raises %s' % (init, type(ex).__name__), dict(kind=kind, init=init), observed=str(ex)[:200])
         continue
@@ -233,7 +249,7 @@ def run(ctx):
       L0 = objs[0][1]
       if f(e.components_) > f(L0) + 1e-9 * (1 + abs(f(L0))):
         ctx.fail_input('not_worse_than_init', 'lmnn: the returned transformation has a worse documented objective than the initialisation',
-                       dict(kind=kind, init=init, X=X.tolist()), observed=[f(e.components_), f(L0)])
+                       dict(kind=kind, init=init, X=X.tolist(), learn_rate=lr, max_iter=mi), observed=[f(e.components_), f(L0)])
       # accepted iterates: objective of every kept point (the one the next gradient step starts from) non-increasing
       acc = [objs[0][0]]
       for o, La in objs[1:]:
@@ -242,6 +258,32 @@ def run(ctx):
       ctx.count('lmnn_monotone', 1)
       if abs(acc[-1] - [o for o, La in objs if np.array_equal(La, e.components_)][-1]) > 1e-9 * (1 + abs(acc[-1])):
         ctx.fail_input('lmnn_monotone', 'the returned LMNN transformation is not the last accepted (non-increasing) iterate', dict(init=init, X=X.tolist()))
+  # ---- LMNN's step-size search: learning rates far too large for the data's units (the first trial steps overshoot
+  # by many orders of magnitude): whatever the number of reductions needed, the result is never worse than the start
+  for i in range(16 if thorough else 6):
+    data = fits.make_data(rng, d=int(rng.integers(2, 5)))
+    units = float([10.0, 100.0, 1000.0][i % 3])
+    X, y, d = data['X'] * units, data['y'], data['d']
+    lr = float([1.0, 100.0, 1e4][int(rng.integers(0, 3))])
+    mi = int(rng.integers(3, 7))
+    kk = int(rng.integers(1, 3))
+    reg = float(rng.choice([0.2, 0.5, 0.8]))
+    ctx.count('not_worse_than_init', 1)
+    ctx.hist('lmnn.learn_rate', lr)
+    ctx.hist('lmnn.units', units)
+    try:
+      with warnings.catch_warnings():
+        warnings.simplefilter('ignore')
+        e = LMNN(max_iter=mi, n_neighbors=kk, learn_rate=lr, regularization=reg, init='identity').fit(X, y)
+    except Exception as ex:
+      ctx.fail_input('fit_runs', 'lmnn(learn_rate=%g) raises %s' % (lr, type(ex).__name__), dict(kind='lmnn', learn_rate=lr, X=X.tolist()), observed=str(ex)[:200])
+      continue
+    T = lmnn_targets(X, y, kk)
+    f0, f1 = lmnn_doc(np.eye(d), X, y, T, reg), lmnn_doc(e.components_, X, y, T, reg)
+    if not (f1 <= f0 + 1e-9 * (1 + abs(f0))):
+      ctx.fail_input('not_worse_than_init', 'lmnn: the returned transformation has a worse documented objective than the initialisation',
+                     dict(kind='lmnn', init='identity', X=X.tolist(), y=y.tolist(), learn_rate=lr, max_iter=mi, n_neighbors=kk, regularization=reg),
+                     observed=[f1, f0])
   # ---- zero optimiser iterations return the initialisation
   data = fits.make_data(rng, d=3)
   X, y = data['X'] * 0.5, data['y']
